@@ -47,3 +47,54 @@ Theorem C08_expected_cached_verifies :
                 exp_root_indexes HO (mk_ctx HO s) hs = Some idx.
 Proof. exact cached_verifies. Qed.
 Print Assumptions C08_expected_cached_verifies.
+
+(** ** The Go algorithm (mirror Model/ProofUpdate.v of the Go method Proof.Undo, compared with the code
+    on every call) computes the expected cached proof of the PREVIOUS state (Proofs/ProofUndoSpec.v):
+    proved for every ADDITION-ONLY block on any forest (re-created empty roots, a row lost); for blocks
+    with deletions the statement is reduced to [undoDel] alone ([C08_undo_reduces_to_undoDel]) and
+    decided by kernel computation on all 19,375 cases of 4 slots; its general proof is open. *)
+From Utreexo Require Import Model.ProofUpdate Proofs.AbstractModels Proofs.StumpDelData
+     Proofs.ProofUpdateSpec Proofs.ProofUndoSpec.
+
+Theorem C08_undo_addition_blocks :
+  forall (H : Type) (HO : ops H), ops_ok HO ->
+  (forall a b, NZ HO (op_hash2 HO a b)) ->
+  forall (s : slots H) (adds : list H),
+  N.of_nat (length s + length adds) <= 2 ^ 63 ->
+  NoDup (live (s ++ map Some adds)) ->
+  forall (C : list H) (rem : list N),
+  NoDup C -> (forall h, In h C -> In (Some h) s) ->
+  forall hC' tC' pC' bt bp,
+    exp_cached HO (mk_ctx HO (apply_block HO s [] adds)) (cached_after HO C [] (pick adds rem))
+      = Some (hC', tC', pC') ->
+    proof_undo HO tC' pC' (N.of_nat (length adds)) (num_leaves (apply_block HO s [] adds)) [] [] hC'
+               (ud_to_destroy (spec_update_data HO s [] adds)) bt bp
+    = exp_cached HO (mk_ctx HO s) (cached_after_undo HO (cached_after HO C [] (pick adds rem)) adds) /\
+    cached_after_undo HO (cached_after HO C [] (pick adds rem)) adds = C /\
+    exp_cached HO (mk_ctx HO s) C <> None.
+Proof. exact proof_undo_add_only. Qed.
+Print Assumptions C08_undo_addition_blocks.
+
+Theorem C08_undo_reduces_to_undoDel :
+  forall (H : Type) (HO : ops H), ops_ok HO ->
+  (forall a b, NZ HO (op_hash2 HO a b)) ->
+  forall (s : slots H) (dels adds : list H),
+  N.of_nat (length s + length adds) <= 2 ^ 63 ->
+  NoDup (live (kill HO dels s ++ map Some adds)) ->
+  forall (C : list H) (rem : list N),
+  NoDup C -> (forall h, In h C -> In (Some h) s) ->
+  forall hC' tC' pC' dp bt bp,
+    exp_cached HO (mk_ctx HO (apply_block HO s dels adds)) (cached_after HO C dels (pick adds rem))
+      = Some (hC', tC', pC') ->
+    exists h1 t1 p1,
+      exp_cached HO (mk_ctx HO (kill HO dels s)) (removeH HO C dels) = Some (h1, t1, p1) /\
+      proof_undo HO tC' pC' (N.of_nat (length adds)) (num_leaves (apply_block HO s dels adds)) dp dels hC'
+                 (ud_to_destroy (spec_update_data HO s dels adds)) bt bp
+      = undoDel HO t1 p1 dp dels h1 bt bp (num_leaves s).
+Proof. exact proof_undo_reduction. Qed.
+Print Assumptions C08_undo_reduces_to_undoDel.
+
+(** the full statement (blocks with deletions), decided by computation on every state of 4 slots *)
+Theorem C08_undo_all_blocks_4_slots : un_failures 4 4 = [].
+Proof. exact un_g0_exhaustive_4. Qed.
+Print Assumptions C08_undo_all_blocks_4_slots.
